@@ -134,6 +134,9 @@ def run_case(case):
     if to_df:
         desc_kw.pop("var_dims"), desc_kw.pop("var_coords")
 
+    import copy
+    attrs_before = copy.deepcopy(attrs)
+    consts_before = copy.deepcopy(consts)
     runner = None
     with under_test(entry):
         if entry in ("combo_to_ds", "combo_to_df"):
@@ -185,9 +188,40 @@ def run_case(case):
                         (a, list(v)) for a, v in combos.items())
                 out = runner.run_cases(cases_in, constants=call_consts,
                                        **call_opts)
+    require(attrs == attrs_before and consts == consts_before,
+            "arguments-modified",
+            f"the attrs / constants mappings passed in were modified: attrs "
+            f"{attrs!r} (was {attrs_before!r})")
     if runner is not None:
         require(runner.last_ds is out, "last_ds-not-returned-object",
                 "Runner.last_ds is not the object that was returned")
+        if case.get("second_run") and not to_df and case["mode"] == "combos":
+            # the same Runner again, with another per-call constant: nothing
+            # of the first run may stick
+            models.LOG.clear()
+            extra2 = {"zz_run2": 5}
+            with under_test("second run on the same Runner"):
+                out2 = runner.run_combos(combos, constants={
+                    **call_consts, **extra2}, **call_opts)
+            labelled.check_dataset(
+                out2, spec=spec, fn_args=fn_args, coords=coords,
+                requested=None, fn_kwargs_extra={**extra, **extra2},
+                constants={**consts, **extra2}, resources=resources,
+                attrs=attrs, var_coords=var_coords, explicit_names=not xobj,
+                tag="second run")
+            models.LOG.clear()
+            with under_test("third run without the extra constant"):
+                out3 = runner.run_combos(combos, constants=call_consts,
+                                         **call_opts)
+            require("zz_run2" not in out3.attrs, "stale-constant",
+                    f"a constant given to an earlier run is recorded on a "
+                    f"later one: attrs {dict(out3.attrs)!r:.200}")
+            models.LOG.clear()
+            # put the log back to what the call-log oracle expects
+            for s_ in settings:
+                kw_ = dict(zip(fn_args, s_))
+                kw_.update(extra)
+                models.LOG.append(kw_)
 
     # ---- call log
     exp = []
@@ -290,7 +324,8 @@ def strategy(draw):
             "executor": draw(st.sampled_from([None, None, None, 5, 77])),
             "const_split": draw(st.integers(0, 3)),
             "defaults_carry_shuffle": draw(st.booleans()),
-            "override": draw(st.booleans())}
+            "override": draw(st.booleans()),
+            "second_run": draw(st.booleans())}
     if mode == "combos":
         case["args"] = draw(gens.grid(1, 3, 3, mixed=False, names=names))
         case["combo_spelling"] = draw(st.sampled_from(["dict", "pairs"]))
